@@ -932,6 +932,9 @@ func (s *sim) execRound(op Op) {
 		if len(res) == 0 || (res[0] != tmconsensus.HandleProposedHeaderAccepted && res[0] != tmconsensus.HandleProposedHeaderAlreadyStored) {
 			// honest validators do not vote for a header their own mirror rejected
 			s.label("macro-round-ph-rejected")
+			if len(res) > 0 {
+				s.macroRejected = append(s.macroRejected, fmt.Sprintf("step %d: honest proposal for %d/%d by validator %d building on %s was answered with result %d", s.step, h, r, op.P%n, hx(b.PH.Header.PrevBlockHash), res[0]))
+			}
 			return
 		}
 		if res[0] == tmconsensus.HandleProposedHeaderAlreadyStored && !s.inVotingViewAfterRefresh(string(b.PH.Header.Hash)) {
